@@ -281,6 +281,14 @@ func singleFaults() []namedStream {
 	return out
 }
 
+func countsOf(lens []uint8) map[uint8]int {
+	m := map[uint8]int{}
+	for _, l := range lens {
+		m[l]++
+	}
+	return m
+}
+
 func c03Harness(cfg *Cfg) func(x *mc.Exec) {
 	g := newStreamGen(cfg)
 	pairs := c03Pairs()
@@ -390,13 +398,59 @@ func c03Harness(cfg *Cfg) func(x *mc.Exec) {
 				x.Outcome(fmt.Sprintf("%s %d", errClass(o.Err), len(o.Out)))
 			}
 		case 2: // single faults
-			fam := x.Choose(3, "fault-family")
+			fam := x.Choose(4, "fault-family")
 			var ns namedStream
 			switch fam {
 			case 0:
 				ns = hdrFaults[x.Choose(len(hdrFaults), "header-run")]
 			case 1:
 				ns = faults[x.Choose(len(faults), "fault")]
+			case 3: // sparse codes: very incomplete codes made of long codes only - every vector of counts per code length from
+				// a small menu; the lookup tables are sized for complete codes, and a sparse code spreads over more
+				// prefix groups than a complete one ever does
+				menu := []int{0, 1, 3, 17}
+				if cfg.Thorough {
+					menu = []int{0, 1, 2, 3, 6, 17}
+				}
+				which := x.Choose(2, "alphabet")
+				first, limit := 11, 30
+				if which == 1 {
+					first, limit = 13, 286 // literal/length codes: sub-tables start behind 12 bits
+					menu = []int{0, 1, 3, 9, 90}
+				}
+				var lens []uint8
+				for l := first; l <= 15; l++ {
+					c := menu[x.Choose(len(menu), fmt.Sprintf("count-len%d", l))]
+					for i := 0; i < c; i++ {
+						lens = append(lens, uint8(l))
+					}
+				}
+				if len(lens) == 0 || len(lens) > limit-2 {
+					return
+				}
+				var blk synth.Block
+				if which == 0 {
+					lit := make([]uint8, 258)
+					lit['a'], lit[256], lit[257] = 2, 2, 2
+					blk = synth.Block{Final: true, Type: 2, LitLens: lit, DistLens: lens,
+						Syms: []synth.Sym{{Kind: synth.SymLit, Lit: 'a'}, {Kind: synth.SymMatch, Len: 3, Dist: 1}, {Kind: synth.SymLit, Lit: 'a'}}}
+				} else {
+					// the long codes go to the literals 0..n-1 (n <= 256) and to the length symbols behind them; 'a' (97) and
+					// end-of-block keep short codes
+					lit := make([]uint8, 286)
+					j := 0
+					for i := 0; i < 286 && j < len(lens); i++ {
+						if i == 'a' || i == 256 {
+							continue
+						}
+						lit[i] = lens[j]
+						j++
+					}
+					lit['a'], lit[256] = 2, 2
+					blk = synth.Block{Final: true, Type: 2, LitLens: trimLitLens(lit), DistLens: []uint8{1, 1},
+						Syms: []synth.Sym{{Kind: synth.SymLit, Lit: 'a'}, {Kind: synth.SymLit, Lit: 0}, {Kind: synth.SymLit, Lit: 'a'}}}
+				}
+				ns = namedStream{fmt.Sprintf("sparse-code alphabet=%d lengths=%v", which, countsOf(lens)), synth.Build(blk)}
 			case 2: // distance beyond the data produced, for every code pair that has matches
 				pi := x.Choose(len(pairs)+1, "code")
 				pos := x.Choose(2, "position")
